@@ -132,7 +132,44 @@ def constructs(seed=0):
                       D.func(single(T('int')), 'fn', [arg(T('double'), 'x'), arg(T('string', 1, '&'), 'name', '"n"')]),
                       D.func(pair(T('ns::Pose', 0, '*'), T('double')), 'pr', [arg(T('ns::Pose', 0, '*'), 'p'), arg(T('ns::Rot', 0, '@'), 'r')]),
                       D.func(single(T('void')), 'noargs', []), D.func(single(T('ns::Pose', 1, '&')), 'cref', [])]
+    # two different namespaces with the same innermost name, and a namespace named like its parent
+    c['same_leaf_namespaces'] = [
+        D.ns('sensors', [D.ns('detail', [D.cls('Sd', [D.ctor('Sd')]), D.func(single(T('int')), 'sdFn', []), D.var(T('int', 1), 'kSd', '1')])]),
+        D.ns('robot', [D.ns('detail', [D.cls('Rd', [D.ctor('Rd')]), D.enum('Re', ['R1']), D.var(T('int', 1), 'kRd', '2')]),
+                       D.ns('robot', [D.cls('Rr', [D.ctor('Rr')])])]),
+        D.ns('detail', [D.func(single(T('int')), 'topDetail', [])])]
+    # several This:: in one template argument list
+    c['this_scoped_multi'] = [D.cls('Tz', [D.enum('Key', ['K1']), D.enum('Mode', ['M1', 'M2']), D.ctor('Tz'),
+                                           D.method(single(T('void')), 'setAll', [arg(T('std::map', 1, '&', [T('gt::This::Key'), T('gt::This::Mode')]), 'm')]),
+                                           D.method(single(T('std::map', t=[T('gt::This::Mode'), T(V, t=[T('gt::This::Key')])])), 'getAll', [], 1),
+                                           D.static(single(T(V, t=[T('gt::This::Mode')])), 'Modes', [arg(T('std::map', t=[T('int'), T('gt::This::Key')]), 'a')])],
+                                    tpl=[D.tparam('T', [T('ns::Pose'), T('double')])])]
+    # header paths of which one is a suffix / prefix / substring of another, at two scopes
+    c['include_paths'] = [D.include('vision/geometry/Pose.h'), D.include('geometry/Pose.h'), D.include('Pose.h'),
+                          D.include('geometry/Pose.hpp'), D.include('geometry/Po'),
+                          D.cls('Ip', [D.ctor('Ip')]),
+                          D.ns('inc', [D.include('deep/vision/geometry/Pose.h'), D.include('ision/geometry/Pose.h'), D.include('mock.h'),
+                                       D.cls('Iq', [D.ctor('Iq')])])]
     return c
+
+
+def module_includes(items, top, path=('',), acc=None):
+    """Headers named in the scopes that belong to the module (a scope belongs to it when its path and the top
+    module namespace path agree on their common length)."""
+    acc = [] if acc is None else acc
+    n = min(len(path), len(top))
+    if list(path[:n]) != list(top[:n]):
+        return acc
+    for d in items:
+        if d['k'] == 'include' and d['h'] not in acc:
+            acc.append(d['h'])
+        elif d['k'] == 'ns':
+            module_includes(d['c'], top, tuple(path) + (d['n'],), acc)
+    return acc
+
+
+def header_marker(h):
+    return 'VF_HDR_' + ''.join(ch if ch.isalnum() else '_%02x' % ord(ch) for ch in h)
 
 
 KNOWN_BAD_FIRST = []   # nothing is pre-excluded: findings go through known_findings.json
@@ -201,8 +238,17 @@ def compile_case(case):
         hdr, _ = cxx.mock_header(mod[1:])
         with open(os.path.join(udir, 'mock.h'), 'w') as f:
             f.write(hdr)
+        # every header the interface file names must be included by the generated translation unit
+        tail = ''
+        for h in module_includes(mod, opt['top']):
+            if h == 'mock.h':
+                continue
+            os.makedirs(os.path.dirname(os.path.join(udir, h)) or udir, exist_ok=True)
+            with open(os.path.join(udir, h), 'w') as f:
+                f.write('#pragma once\n#define %s 1\n' % header_marker(h))
+            tail += '\n#ifndef %s\n#error header_of_the_interface_file_not_included %s\n#endif\n' % (header_marker(h), h)
         with open(os.path.join(udir, 'tu.cpp'), 'w') as f:
-            f.write(out)
+            f.write(out + tail)
         b.check_mock(udir)
         rc, err = b.syntax_check(udir, compiler=case.get('compiler', 'g++'))
         if rc != 0:
@@ -216,8 +262,24 @@ def compile_case(case):
         shutil.rmtree(udir, ignore_errors=True)
 
 
+ERR_CLASSES = [
+    (r"header_of_the_interface_file_not_included", 'header-of-the-interface-file-not-included'),    # compiler-independent classes of the first error (g++ and clang++ word them differently)
+    (r"no match for 'operator='|no viable overloaded '='", 'assignment-to-py-arg-does-not-compile'),
+    (r"'(\w+)' was not declared in this scope|use of undeclared identifier '(\w+)'", 'undeclared-identifier'),
+    (r"expected primary-expression before '\w+'|cannot combine with previous|expected unqualified-id", 'keyword-or-garbage-where-a-name-is-expected'),
+    (r"conflicting declaration|redefinition of '\w+'", 'redefinition'),
+    (r"'\w+' does not name a type|no template named '\w+'|unknown type name '\w+'", 'unqualified-or-unknown-type-name'),
+]
+
+
 def norm_err(e):
     e = re.sub(r'^.*?error:\s*', '', e)
+    e = re.sub(r"[‘’']", "'", e)
+    for pat, cls in ERR_CLASSES:
+        m = re.search(pat, e)
+        if m:
+            ident = next((g for g in m.groups() if g), None) if m.groups() else None
+            return cls + (':' + ident if ident else '')
     e = re.sub(r"[‘’']", "'", e)
     e = re.sub(r'\d+', 'N', e)
     return e[:90]
